@@ -132,17 +132,20 @@ func genBatchCase(r *fw.Rand, i int) (*network, batchCase) {
 	bc := batchCase{Net: n.ref.Name}
 	// length
 	switch x := r.Intn(10); {
-	case x < 2:
+	case x < 3:
 		bc.Len = r.Range(1, 3)
-	case x < 7:
-		bc.Len = r.Range(4, 60)
+	case x < 8:
+		bc.Len = r.Range(4, 40)
 	case x < 9:
-		bc.Len = r.Range(61, 140)
+		bc.Len = r.Range(41, 120)
 	default:
-		bc.Len = r.Range(141, 300)
+		bc.Len = r.Range(121, 300)
 	}
 	if i%17 == 3 {
 		bc.Len = 1
+	}
+	if i%13 == 5 {
+		bc.Len = r.Range(100, 300)
 	}
 	// start: near a fork so that the batch crosses it, or at the bottom of the chain
 	fh := n.ref.ForkHeights()
@@ -155,6 +158,11 @@ func genBatchCase(r *fw.Rand, i int) (*network, batchCase) {
 	}
 	if r.Chance(1, 8) {
 		bc.Start = 1
+	}
+	// headers of hash version 3/4 (16/32 KiB argon2id) are slow under the race
+	// detector: long batches stay on the cheaper versions
+	if v := n.ref.HeaderVersion(new(big.Int).SetUint64(bc.Start + uint64(bc.Len))); v >= 3 && bc.Len > 40 {
+		bc.Len = r.Range(20, 40)
 	}
 	switch {
 	case bc.Start == 1:
@@ -251,7 +259,7 @@ func posClass(i int) string {
 }
 
 func runBatch(c *fw.Ctx) {
-	total := c.Pick(32, 400) // batch cases per child; each runs under 6 worker counts
+	total := c.Pick(24, 300) // batch cases per child; each runs under 6 worker counts
 	orders := map[uint64]bool{}
 	defer runtime.GOMAXPROCS(runtime.GOMAXPROCS(0))
 	for i := 0; i < total; i++ {
